@@ -7,7 +7,7 @@
     cache-less computation.
 
     - file cache ([Hist/FcacheChunk.v], fcache.c with the repairs for defects
-      #8, #41, #72): [fcache_get] / [fcache_pread] / [fcache_get_chunk] over
+      #8, #41, #47, #72): [fcache_get] / [fcache_pread] / [fcache_get_chunk] over
       both sub-caches (abstract keyed stores with an arbitrary eviction
       oracle — every replacement behaviour), all four mmap policies incl.
       TRY_ONCE's latch, I/O, mmap and malloc failure oracles, buffer adjacency
@@ -79,24 +79,23 @@ Proof. exact fcache_try_once_latch_visible_beyond_eof. Qed.
 Theorem C04_fcache_never_busy_when_balanced :
   forall (pgshift order filesz : N) (file : N -> N) (m : machine) (o : FcacheChunk.op),
     reachable pgshift order filesz file m ->
-    quiet (set_orc (m_st m) (op_oracle o)) ->
     (forall w : which, nr w (m_st m) = 0) ->
     (forall w : which, own_need pgshift o <= capw w (m_st m)) ->
     fst (step pgshift order filesz file true m o) <> OutErr ERR_BUSY.
-Proof. exact fcache_never_busy_when_balanced. Qed.
+Proof. exact fcache_never_busy_strong. Qed.
 Print Assumptions C04_fcache_never_busy_when_balanced.
 
-(** pread and get_chunk+put_chunk give back every reference and allocation. *)
+(** pread and get_chunk+put_chunk give back every reference and allocation,
+    whatever fails on the way (I/O, mmap, malloc oracles included). *)
 Theorem C04_fcache_refs_balanced :
   forall (pgshift order filesz : N) (file : N -> N) (m : machine) (o : FcacheChunk.op)
          (r : FcacheChunk.outcome) (m' : machine),
     reachable pgshift order filesz file m ->
     match o with OpPread _ _ _ | OpChunk _ _ _ => True | _ => False end ->
-    quiet (set_orc (m_st m) (op_oracle o)) ->
     step pgshift order filesz file true m o = (r, m') ->
     (forall (w : which) (k : N), rc w k (m_st m') = rc w k (m_st m)) /\
     st_live (m_st m') = st_live (m_st m) /\ m_fces m' = m_fces m /\ m_chunks m' = m_chunks m.
-Proof. exact fcache_refs_balanced. Qed.
+Proof. exact fcache_refs_balanced_strong. Qed.
 Print Assumptions C04_fcache_refs_balanced.
 
 (** The model distinguishes defect #8: without the EOF clamp a pread that
